@@ -8,7 +8,7 @@
 size_t nondet_size_t(void);
 int nondet_int(void);
 /* ghost values are arbitrary: every proof holds for all of them */
-#define GHOSTS() do { g_n = nondet_size_t(); g_k = nondet_size_t(); g_t = nondet_int(); g_u = nondet_int(); } while (0)
+#define GHOSTS() do { g_n = nondet_size_t(); g_k = nondet_size_t(); g_t = nondet_int(); g_u = nondet_int(); g_fresh = nondet_int(); } while (0)
 
 void h_jsmn_alloc_token(void) {
   GHOSTS();
